@@ -75,6 +75,15 @@ func (a *aliasCtx) track(fn *ssa.Function, v ssa.Value, depth int, trail string)
 				}
 				continue
 			}
+			if al, path, ok := rootAlloc(i.Addr); ok && al.Heap && len(path) == 0 && al.Parent() == fn {
+				// a variable captured by closures that are only called while this call is running
+				if ret, ok := a.capturedCell(fn, al, depth, trail); ok {
+					if ret {
+						returned = true
+					}
+					continue
+				}
+			}
 			a.finds = append(a.finds, aliasFinding{i.Pos(), here + ": caller's slice stored into " + describeAddr(a.c, i.Addr) + " without copying"})
 		case *ssa.MapUpdate:
 			a.finds = append(a.finds, aliasFinding{i.Pos(), here + ": caller's slice stored into a map"})
@@ -144,6 +153,110 @@ func (a *aliasCtx) track(fn *ssa.Function, v ssa.Value, depth int, trail string)
 		}
 	}
 	return returned
+}
+
+// capturedCell: the variable al of fn holds the tracked slice and is shared with closures. ok=false
+// when the variable or one of the closures may outlive the call (the address or the closure value is
+// stored, returned, started as a goroutine or handed to code that does more than call it). Otherwise
+// the reads of the variable - in fn and inside the closures - are tracked like any other alias.
+func (a *aliasCtx) capturedCell(fn *ssa.Function, al *ssa.Alloc, depth int, trail string) (returned, ok bool) {
+	type capture struct {
+		mc *ssa.MakeClosure
+		fv *ssa.FreeVar
+	}
+	var loads []*ssa.UnOp
+	var caps []capture
+	for _, r := range *al.Referrers() {
+		switch x := r.(type) {
+		case *ssa.DebugRef:
+		case *ssa.Store:
+			if x.Addr != ssa.Value(al) {
+				return false, false
+			}
+		case *ssa.UnOp:
+			loads = append(loads, x)
+		case *ssa.MakeClosure:
+			cl := x.Fn.(*ssa.Function)
+			for k, b := range x.Bindings {
+				if b == ssa.Value(al) && k < len(cl.FreeVars) {
+					caps = append(caps, capture{x, cl.FreeVars[k]})
+				}
+			}
+		default:
+			return false, false
+		}
+	}
+	if depth >= 5 {
+		return false, false
+	}
+	for _, cp := range caps {
+		if !a.closureContained(cp.mc, 0) {
+			return false, false
+		}
+		for _, r := range *cp.fv.Referrers() {
+			switch x := r.(type) {
+			case *ssa.DebugRef, *ssa.Store:
+				if st, isSt := x.(*ssa.Store); isSt && st.Addr != ssa.Value(cp.fv) {
+					return false, false
+				}
+			case *ssa.UnOp:
+			default:
+				return false, false // captured again by an inner closure, address passed on, ...
+			}
+		}
+	}
+	here := trail + a.c.P.FuncName(fn)
+	for _, ld := range loads {
+		if a.track(fn, ld, depth, trail) {
+			returned = true
+		}
+	}
+	for _, cp := range caps {
+		cl := cp.mc.Fn.(*ssa.Function)
+		for _, r := range *cp.fv.Referrers() {
+			if ld, isLd := r.(*ssa.UnOp); isLd {
+				if a.track(cl, ld, depth+1, here+" -> ") {
+					// the closure hands an alias back to whoever calls it
+					a.finds = append(a.finds, aliasFinding{cp.mc.Pos(), here + ": closure returns an alias of the caller's slice"})
+				}
+			}
+		}
+	}
+	return returned, true
+}
+
+// closureContained: the function value v is only called (directly, deferred, or by repo functions
+// that receive it as a parameter and only call it or pass it on likewise).
+func (a *aliasCtx) closureContained(v ssa.Value, depth int) bool {
+	if depth > 3 || v.Referrers() == nil {
+		return false
+	}
+	for _, r := range *v.Referrers() {
+		switch x := r.(type) {
+		case *ssa.DebugRef:
+		case *ssa.Go:
+			return false
+		case ssa.CallInstruction:
+			cc := x.Common()
+			if cc.Value == v {
+				continue
+			}
+			cal := cc.StaticCallee()
+			if cal == nil || !isRepoFunc(cal) || cal.Blocks == nil || cc.IsInvoke() {
+				return false
+			}
+			for ai, arg := range cc.Args {
+				if arg == v {
+					if ai >= len(cal.Params) || !a.closureContained(cal.Params[ai], depth+1) {
+						return false
+					}
+				}
+			}
+		default:
+			return false
+		}
+	}
+	return true
 }
 
 func describeAddr(c *Ctx, addr ssa.Value) string {
